@@ -62,7 +62,7 @@ func (g *G) chaosWrap(sc []string, e *Expr, depth int) *Expr {
 				args = append([]*Expr{other()}, args...)
 			}
 		}
-		if fn == "range" && g.Chance(80) {
+		if fn == "range" {
 			// keep finite data finite in memory: bounded literal limits, any step (also zero and negative)
 			r := []*Expr{{Op: "int", I: int64(g.Intn(20)) - 5}, {Op: "int", I: int64(g.Intn(2000))}, {Op: "int", I: int64(g.Intn(7)) - 3}}[:1+g.Intn(3)]
 			return &Expr{Op: "list", Args: []*Expr{e, {Op: "call", Name: "range", Args: r}}}
